@@ -1,14 +1,35 @@
 #!/bin/bash
 # extract the model (one OCaml module per Extract_<area>.v) and build the driver: build.sh <output binary>
-set -eu
+# An area whose extraction or compilation fails is left out (its subcommands are then missing) and
+# named in <output binary>.failed ; the build only fails when no driver can be linked at all.
+set -u
 cd "$(dirname "$0")"
 out="$1"
-rm -f model_*.ml model_*.mli
+rm -f model_*.ml model_*.mli "$out.failed"
+failed=""
 for f in Extract_*.v; do
-  coqc -Q ../theories Grits "$f" >/dev/null
+  area="${f#Extract_}"; area="${area%.v}"
+  if ! coqc -Q ../theories Grits "$f" >/dev/null 2>"/tmp/extract_$area.$$.err"; then
+    failed="$failed $area"; rm -f "model_$area.ml" "model_$area.mli"
+    echo "extraction of area $area failed: $(tail -3 /tmp/extract_$area.$$.err | tr '\n' ' ')" >&2
+  fi
+  rm -f "/tmp/extract_$area.$$.err"
   b="${f%.v}"; rm -f "$b.vo" "$b.glob" "$b.vok" "$b.vos" ".$b.aux"
 done
-srcs=""
-for m in model_*.ml; do srcs="$srcs ${m%.ml}.mli $m"; done
-ocamlfind ocamlopt -O3 -w -a $srcs registry.ml drv_*.ml driver.ml -o "$out" 2>/dev/null || ocamlfind ocamlopt -w -a $srcs registry.ml drv_*.ml driver.ml -o "$out"
+srcs=""; drvs=""
+for m in model_*.ml; do
+  [ -e "$m" ] || continue
+  area="${m#model_}"; area="${area%.ml}"
+  # compile each area on its own first, so that one broken driver file does not take the others down
+  if ocamlfind ocamlopt -w -a -c "model_$area.mli" "model_$area.ml" registry.ml "drv_$area.ml" >/dev/null 2>&1; then
+    srcs="$srcs model_$area.mli model_$area.ml"; drvs="$drvs drv_$area.ml"
+  else
+    failed="$failed $area"; echo "OCaml compilation of area $area failed" >&2
+  fi
+done
 rm -f *.cmi *.cmx *.o
+[ -n "$failed" ] && echo "$failed" > "$out.failed"
+ocamlfind ocamlopt -O3 -w -a $srcs registry.ml $drvs driver.ml -o "$out" 2>/dev/null || ocamlfind ocamlopt -w -a $srcs registry.ml $drvs driver.ml -o "$out"
+rc=$?
+rm -f *.cmi *.cmx *.o
+exit $rc
